@@ -206,10 +206,10 @@ def pending (ops : List Op) : List Tx := ops.foldl pendingStep []
 
 /-- the property's precondition for one operation in pending set `P`: an inserted transaction
     has a (sender, nonce) that is not pending — or, slightly more generally, it replaces a
-    pending transaction of the *same* priority — and its priority is not the `MinValue`
-    sentinel -/
+    pending transaction of the *same* priority.  Nothing else: in particular no condition on
+    the priority value (the `MinValue` sentinel is handled separately, see `NoMin`). -/
 def OpOk (P : List Tx) : Op → Prop
-  | .insert s n p _ => minInt64 < p ∧ ∀ t ∈ P, t.sender = s ∧ t.nonce = n → t.prio = p
+  | .insert s n p _ => ∀ t ∈ P, t.sender = s ∧ t.nonce = n → t.prio = p
   | _ => True
 
 def AdmFrom (P : List Tx) : List Op → Prop
@@ -222,7 +222,6 @@ def Admissible (ops : List Op) : Prop := AdmFrom [] ops
 /-- the indices describe the pending set `P` -/
 structure Inv (mp : Pool) (P : List Tx) : Prop where
   keys_nodup : (P.map Tx.skey).Nodup
-  prio_gt : ∀ t ∈ P, minInt64 < t.prio
   psorted : Sorted mp.pidx
   pkeys : (mp.pidx.map PNode.skey).Nodup
   pmem : ∀ t, t ∈ mp.pidx.map PNode.tx ↔ t ∈ P
@@ -316,7 +315,7 @@ theorem perm_filter_key (P : List Tx) (t0 : Tx) (hnd : (P.map Tx.skey).Nodup) (h
       exact (List.Perm.cons x (ih hnd.2 h0)).trans (List.Perm.swap t0 x _)
 
 theorem inv_insert_fresh {mp : Pool} {P : List Tx} (h : Inv mp P) (s : String) (n : Nat) (p : Int) (id : Nat)
-    (hp : minInt64 < p) (hfresh : ∀ t ∈ P, ¬ (t.sender = s ∧ t.nonce = n)) :
+    (hfresh : ∀ t ∈ P, ¬ (t.sender = s ∧ t.nonce = n)) :
     Inv (mp.insert s n p id) (pendingStep P (.insert s n p id)) := by
   have hP' : pendingStep P (.insert s n p id) = ⟨s, n, p, id⟩ :: P := by
     simp only [pendingStep]; rw [filter_key_fresh P s n hfresh]
@@ -354,11 +353,6 @@ theorem inv_insert_fresh {mp : Pool} {P : List Tx} (h : Inv mp P) (s : String) (
     rcases List.mem_map.mp hm with ⟨t, ht, e⟩
     simp only [Tx.skey, Prod.mk.injEq] at e
     exact hfresh t ht e
-  · -- prio_gt
-    intro t ht
-    rcases List.mem_cons.mp ht with ht | ht
-    · subst ht; exact hp
-    · exact h.prio_gt t ht
   · exact pset_sorted _ _ h.psorted hneq
   · -- pkeys
     refine ((hperm.map PNode.skey).nodup_iff).mpr ?_
@@ -464,7 +458,6 @@ theorem inv_remove {mp : Pool} {P : List Tx} (h : Inv mp P) (s : String) (n : Na
     rw [hP', hrm]
     constructor
     · exact List.Nodup.sublist (List.Sublist.map _ List.filter_sublist) h.keys_nodup
-    · intro t ht; exact h.prio_gt t (List.mem_filter.mp ht).1
     · exact perase_sorted _ _ h.psorted
     · exact List.Nodup.sublist (List.Sublist.map _ (perase_sublist _ _)) h.pkeys
     · -- pmem
@@ -597,7 +590,7 @@ theorem insert_eq_remove_insert {mp : Pool} {P : List Tx} (h : Inv mp P) (s : St
 theorem inv_insert {mp : Pool} {P : List Tx} (h : Inv mp P) (s : String) (n : Nat) (p : Int) (id : Nat)
     (hok : OpOk P (.insert s n p id)) :
     Inv (mp.insert s n p id) (pendingStep P (.insert s n p id)) := by
-  obtain ⟨hp, hsame⟩ := hok
+  have hsame := hok
   by_cases hex : ∃ t ∈ P, t.sender = s ∧ t.nonce = n
   · obtain ⟨t0, ht0, hk0⟩ := hex
     rw [insert_eq_remove_insert h s n p id t0 ht0 hk0 (hsame t0 ht0 hk0)]
@@ -606,13 +599,13 @@ theorem inv_insert {mp : Pool} {P : List Tx} (h : Inv mp P) (s : String) (n : Na
       intro t ht hk
       simp only [pendingStep, List.mem_filter] at ht
       simp [hk.1, hk.2] at ht
-    have h2 := inv_insert_fresh h1 s n p id hp hfresh
+    have h2 := inv_insert_fresh h1 s n p id hfresh
     have hP : pendingStep (pendingStep P (.remove s n)) (.insert s n p id)
         = pendingStep P (.insert s n p id) := by
       simp only [pendingStep, List.filter_filter, Bool.and_self]
     rw [hP] at h2
     exact h2
-  · exact inv_insert_fresh h s n p id hp (fun t ht hk => hex ⟨t, ht, hk⟩)
+  · exact inv_insert_fresh h s n p id (fun t ht hk => hex ⟨t, ht, hk⟩)
 
 /-- one round of the second loop of `reorderPriorityTies` keeps the invariant, and keeps every
     other element of the priority index in place -/
@@ -638,7 +631,6 @@ theorem inv_reweigh {mp : Pool} {P : List Tx} (h : Inv mp P) (d : PNode) (w : In
   refine ⟨?_, ?_⟩
   · constructor
     · exact h.keys_nodup
-    · exact h.prio_gt
     · exact pset_sorted _ _ (perase_sorted _ _ h.psorted) hnoeq
     · -- pkeys
       have e : (pset { d with weight := w } (perase d mp.pidx)).map PNode.skey |>.Perm
@@ -740,6 +732,91 @@ theorem inv_steps (ops : List Op) : ∀ (mp : Pool) (P : List Tx), Inv mp P → 
 theorem inv_run (ops : List Op) (h : Admissible ops) : Inv (run ops) (pending ops) :=
   inv_steps ops _ _ inv_empty h
 
+/-! ### histories: prefixes, provenance of pending transactions -/
+
+theorem run_append (a b : List Op) : run (a ++ b) = b.foldl Pool.step (run a) := by
+  simp only [run, List.foldl_append]
+
+theorem pending_append (a b : List Op) : pending (a ++ b) = b.foldl pendingStep (pending a) := by
+  simp only [pending, List.foldl_append]
+
+/-- prefix closure of the precondition -/
+theorem admFrom_append (a b : List Op) : ∀ P : List Tx,
+    AdmFrom P (a ++ b) ↔ AdmFrom P a ∧ AdmFrom (a.foldl pendingStep P) b := by
+  induction a with
+  | nil => intro P; simp [AdmFrom]
+  | cons op a ih =>
+    intro P
+    simp only [List.cons_append, AdmFrom, List.foldl_cons, ih, and_assoc]
+
+theorem Admissible.prefix {a b : List Op} (h : Admissible (a ++ b)) : Admissible a :=
+  ((admFrom_append a b []).mp h).1
+
+/-- a transaction that is pending after `ops` was pending before or was inserted by `ops` -/
+theorem foldl_pending_mem (ops : List Op) : ∀ (P : List Tx) (t : Tx), t ∈ ops.foldl pendingStep P →
+    t ∈ P ∨ Op.insert t.sender t.nonce t.prio t.id ∈ ops := by
+  induction ops with
+  | nil => intro P t h; exact Or.inl h
+  | cons op ops ih =>
+    intro P t h
+    rw [List.foldl_cons] at h
+    rcases ih _ t h with h | h
+    · cases op with
+      | insert s n p id =>
+        simp only [pendingStep] at h
+        rcases List.mem_cons.mp h with h | h
+        · subst h; exact Or.inr List.mem_cons_self
+        · exact Or.inl (List.mem_filter.mp h).1
+      | remove s n => exact Or.inl (List.mem_filter.mp h).1
+      | select => exact Or.inl h
+    · exact Or.inr (List.mem_cons_of_mem _ h)
+
+/-- the operation concerns the transaction key (sender, nonce) -/
+def touches (s : String) (n : Nat) : Op → Prop
+  | .insert s' n' _ _ => s' = s ∧ n' = n
+  | .remove s' n' => s' = s ∧ n' = n
+  | .select => False
+
+/-- a pending transaction stays pending as long as no operation concerns its key -/
+theorem foldl_pending_keep (ops : List Op) : ∀ (P : List Tx) (t : Tx), t ∈ P →
+    (∀ op ∈ ops, ¬ touches t.sender t.nonce op) → t ∈ ops.foldl pendingStep P := by
+  induction ops with
+  | nil => intro P t h _; exact h
+  | cons op ops ih =>
+    intro P t h hno
+    rw [List.foldl_cons]
+    apply ih _ t _ (fun o ho => hno o (List.mem_cons_of_mem _ ho))
+    have h0 := hno op List.mem_cons_self
+    have hkeep : ∀ s n, ¬ (s = t.sender ∧ n = t.nonce) →
+        t ∈ P.filter (fun x => !(x.sender == s && x.nonce == n)) := by
+      intro s n hne
+      refine List.mem_filter.mpr ⟨h, ?_⟩
+      simp only [Bool.not_eq_true', Bool.and_eq_false_iff, beq_eq_false_iff_ne, ne_eq]
+      by_cases hs : t.sender = s
+      · exact Or.inr (fun hn => hne ⟨hs.symm, hn.symm⟩)
+      · exact Or.inl hs
+    cases op with
+    | insert s n p id => exact List.mem_cons_of_mem _ (hkeep s n h0)
+    | remove s n => exact hkeep s n h0
+    | select => exact h
+
+/-- the priorities are Go `int64` values.  This is the *type* of `Insert`'s priority, not a
+    restriction: every value the implementation can be called with satisfies it. -/
+def Int64Prios (ops : List Op) : Prop :=
+  ∀ s n p id, Op.insert s n p id ∈ ops → minInt64 ≤ p ∧ p ≤ maxInt64
+
+theorem Int64Prios.prefix {a b : List Op} (h : Int64Prios (a ++ b)) : Int64Prios a :=
+  fun s n p id hm => h s n p id (List.mem_append_left _ hm)
+
+theorem pending_ge {ops : List Op} (h : Int64Prios ops) : ∀ t ∈ pending ops, minInt64 ≤ t.prio := by
+  intro t ht
+  rcases foldl_pending_mem ops [] t ht with h0 | h0
+  · cases h0
+  · exact (h _ _ _ _ h0).1
+
+/-- no pending transaction carries the `MinValue` sentinel as its priority -/
+def NoMin (P : List Tx) : Prop := ∀ t ∈ P, t.prio ≠ minInt64
+
 /-! ### the iterator -/
 
 /-- `k` is the priority-index element of the sender-index entry `e` of sender `s`
@@ -759,37 +836,61 @@ def nextPrio : Option PNode → Int
 
 /-- loop invariant of the iterator; `R` are the priority elements not yet visited.
     `head` is the key fact: every sender's first not yet yielded entry still has its own
-    element ahead. -/
+    element ahead.  `pge` is the `int64` typing of the priorities. -/
 structure LI (scores : String → Nat → Option Score) (R : List PNode) (rem : String → List Tx) : Prop where
   sorted : Sorted R
   own : ∀ s, ∀ e ∈ rem s, (∃ k ∈ R, Own scores k s e) ∨ Dom scores s e R
   head : ∀ s e es, rem s = e :: es → ∃ k ∈ R, Own scores k s e
-  pmin : ∀ s, ∀ e ∈ rem s, minInt64 < e.prio
+  pge : ∀ s, ∀ e ∈ rem s, minInt64 ≤ e.prio
   snd : ∀ s, ∀ e ∈ rem s, e.sender = s
 
-/-- `own_node_passes`: an entry whose own element is not ahead any more passes -/
+/-- `own_node_passes`: an entry whose own element is not ahead any more is never deferred
+    (it passes, or — only with the `MinValue` priority at the very last element — panics) -/
 theorem passes_of_dom (scores : String → Nat → Option Score) (s : String) (e : Tx) (R : List PNode)
-    (hd : Dom scores s e R) (hp : minInt64 < e.prio) : passes scores R.head? s e = .pass := by
+    (hd : Dom scores s e R) (hp : minInt64 ≤ e.prio) : passes scores R.head? s e ≠ .stop := by
   cases R with
   | nil =>
     simp only [List.head?_nil, passes]
-    rw [if_neg (by omega), if_neg (by omega)]
+    rw [if_neg (by omega)]
+    split <;> (intro h; cases h)
   | cons m R' =>
     simp only [List.head?_cons, passes]
     rcases hd m (by simp) with h | ⟨h1, h2⟩
-    · rw [if_neg (by omega), if_neg (by omega)]
-    · rw [if_neg (by omega), if_neg (by omega)]
+    · rw [if_neg (by omega), if_neg (by omega)]; intro h; cases h
+    · rw [if_neg (by omega), if_neg (by omega)]; intro h; cases h
 
 theorem passes_pass_ge (scores : String → Nat → Option Score) (next : Option PNode) (s : String) (e : Tx)
-    (h : passes scores next s e = .pass) (hp : minInt64 < e.prio) : nextPrio next ≤ e.prio := by
+    (h : passes scores next s e = .pass) : nextPrio next ≤ e.prio := by
   cases next with
-  | none => simp only [nextPrio]; omega
+  | none =>
+    simp only [nextPrio]
+    simp only [passes] at h
+    split at h
+    · cases h
+    · omega
   | some m =>
     simp only [nextPrio]
     simp only [passes] at h
     split at h
     · cases h
     · omega
+
+/-- the nil dereference happens only at the last element and only for the `MinValue` priority -/
+theorem passes_panic (scores : String → Nat → Option Score) (next : Option PNode) (s : String) (e : Tx)
+    (h : passes scores next s e = .panic) : next = none ∧ e.prio = minInt64 := by
+  cases next with
+  | none =>
+    simp only [passes] at h
+    split at h
+    · cases h
+    · split at h
+      · rename_i h2; exact ⟨rfl, h2⟩
+      · cases h
+  | some m =>
+    simp only [passes] at h
+    split at h
+    · cases h
+    · split at h <;> cases h
 
 theorem drain_append (scores : String → Nat → Option Score) (next : Option PNode) (s : String) (l : List Tx) :
     (drain scores next s l).1 ++ (drain scores next s l).2.1 = l := by
@@ -829,31 +930,18 @@ theorem drain_stop (scores : String → Nat → Option Score) (next : Option PNo
       simp only [drain, hp] at h hnp
       exact ih hnp h
 
-theorem drain_nopanic (scores : String → Nat → Option Score) (next : Option PNode) (s : String) (l : List Tx)
-    (hp : ∀ e ∈ l, minInt64 < e.prio) : (drain scores next s l).2.2 = false := by
+theorem drain_panic (scores : String → Nat → Option Score) (next : Option PNode) (s : String) (l : List Tx)
+    (h : (drain scores next s l).2.2 = true) : ∃ e ∈ l, passes scores next s e = .panic := by
   induction l with
-  | nil => simp [drain]
+  | nil => simp [drain] at h
   | cons x xs ih =>
-    unfold drain
-    split
-    · rfl
-    · rename_i hpan
-      have hx := hp x (by simp)
-      exfalso
-      cases next with
-      | none =>
-        simp only [passes] at hpan
-        split at hpan
-        · cases hpan
-        · split at hpan
-          · omega
-          · cases hpan
-      | some m =>
-        simp only [passes] at hpan
-        split at hpan
-        · cases hpan
-        · split at hpan <;> cases hpan
-    · exact ih (fun e he => hp e (by simp [he]))
+    cases hp : passes scores next s x with
+    | stop => simp [drain, hp] at h
+    | panic => exact ⟨x, List.mem_cons_self, hp⟩
+    | pass =>
+      simp only [drain, hp] at h
+      obtain ⟨e, he, hpe⟩ := ih h
+      exact ⟨e, List.mem_cons_of_mem _ he, hpe⟩
 
 /-- status of an entry after the priority element `m` has been visited -/
 theorem own_step (scores : String → Nat → Option Score) (m : PNode) (R' : List PNode) (s : String) (e : Tx)
@@ -874,21 +962,22 @@ theorem own_step (scores : String → Nat → Option Score) (m : PNode) (R' : Li
     · exact Or.inl ⟨k, hk, ho⟩
   · exact Or.inr (fun r hr => hd r (by simp [hr]))
 
+theorem upd_drain_sub (scores : String → Nat → Option Score) (next : Option PNode) (m : String)
+    (rem : String → List Tx) :
+    ∀ s, ∀ e ∈ upd rem m (drain scores next m (rem m)).2.1 s, e ∈ rem s := by
+  intro s e he
+  simp only [upd] at he
+  split at he
+  · rename_i hs; subst hs
+    rw [← drain_append scores next s (rem s)]; exact List.mem_append_right _ he
+  · exact he
+
+/-- one element of the priority index visited without a panic: the loop invariant is kept -/
 theorem LI_step (scores : String → Nat → Option Score) (m : PNode) (R' : List PNode)
-    (rem : String → List Tx) (h : LI scores (m :: R') rem) :
-    (drain scores R'.head? m.sender (rem m.sender)).2.2 = false ∧
+    (rem : String → List Tx) (h : LI scores (m :: R') rem)
+    (hnp : (drain scores R'.head? m.sender (rem m.sender)).2.2 = false) :
     LI scores R' (upd rem m.sender (drain scores R'.head? m.sender (rem m.sender)).2.1) := by
-  have hnp := drain_nopanic scores R'.head? m.sender (rem m.sender) (h.pmin m.sender)
-  have happ := drain_append scores R'.head? m.sender (rem m.sender)
-  have hsub : ∀ s, ∀ e ∈ upd rem m.sender (drain scores R'.head? m.sender (rem m.sender)).2.1 s,
-      e ∈ rem s := by
-    intro s e he
-    simp only [upd] at he
-    split at he
-    · rename_i hs; subst hs
-      rw [← happ]; exact List.mem_append_right _ he
-    · exact he
-  refine ⟨hnp, ?_⟩
+  have hsub := upd_drain_sub scores R'.head? m.sender rem
   constructor
   · exact (List.pairwise_cons.mp h.sorted).2
   · intro s e he
@@ -903,62 +992,106 @@ theorem LI_step (scores : String → Nat → Option Score) (m : PNode) (R' : Lis
       rcases hst with hk | hd
       · exact hk
       · have h1 := drain_stop scores R'.head? m.sender (rem m.sender) hnp e es hrem
-        have h2 := passes_of_dom scores m.sender e R' hd (h.pmin _ e (hsub _ e hmem))
-        rw [h1] at h2; cases h2
+        exact absurd h1 (passes_of_dom scores m.sender e R' hd (h.pge _ e (hsub _ e hmem)))
     · rename_i hs
       obtain ⟨k, hk, ho⟩ := h.head s e es hrem
       rcases List.mem_cons.mp hk with hk | hk
       · subst hk; exact absurd ho.1.symm hs
       · exact ⟨k, hk, ho⟩
-  · intro s e he; exact h.pmin s e (hsub s e he)
+  · intro s e he; exact h.pge s e (hsub s e he)
   · intro s e he; exact h.snd s e (hsub s e he)
 
-/-- the iterator does not panic, and what it yields for sender `s` is exactly what was left of
-    `s`, in the order of the sender index -/
+theorem filter_sender_self (l : List Tx) (s : String) (h : ∀ e ∈ l, e.sender = s) :
+    l.filter (fun t => t.sender == s) = l := by
+  rw [List.filter_eq_self]
+  intro a ha; simp [h a ha]
+
+theorem filter_sender_other (l : List Tx) (z s : String) (h : ∀ e ∈ l, e.sender = z) (hs : ¬ s = z) :
+    l.filter (fun t => t.sender == s) = [] := by
+  rw [List.filter_eq_nil_iff]
+  intro a ha
+  rw [h a ha]
+  simp only [beq_iff_eq]
+  exact fun e => hs e.symm
+
+/-- what the iterator yields for sender `s` is always a prefix of what was left of `s`, in the
+    order of the sender index; it is all of it unless the iterator panics; and it panics only
+    if some entry carries the `MinValue` priority -/
 theorem iter_filter (scores : String → Nat → Option Score) (R : List PNode) :
     ∀ rem : String → List Tx, LI scores R rem →
-      (iter scores R rem).2 = false ∧
-      ∀ s, (iter scores R rem).1.filter (fun t => t.sender == s) = rem s := by
+      (∀ s, (iter scores R rem).1.filter (fun t => t.sender == s) <+: rem s) ∧
+      ((iter scores R rem).2 = false →
+        ∀ s, (iter scores R rem).1.filter (fun t => t.sender == s) = rem s) ∧
+      ((iter scores R rem).2 = true → ∃ s, ∃ e ∈ rem s, e.prio = minInt64) := by
   induction R with
   | nil =>
     intro rem h
-    refine ⟨rfl, ?_⟩
-    intro s
-    cases hr : rem s with
-    | nil => simp [iter]
-    | cons e es =>
-      obtain ⟨k, hk, _⟩ := h.head s e es hr
-      cases hk
+    refine ⟨fun s => List.nil_prefix, ?_, ?_⟩
+    · intro _ s
+      cases hr : rem s with
+      | nil => simp [iter]
+      | cons e es =>
+        obtain ⟨k, hk, _⟩ := h.head s e es hr
+        cases hk
+    · intro hp; simp [iter] at hp
   | cons m R' ih =>
     intro rem h
-    obtain ⟨hnp, hli⟩ := LI_step scores m R' rem h
-    obtain ⟨ih1, ih2⟩ := ih _ hli
     have happ := drain_append scores R'.head? m.sender (rem m.sender)
     have hsnd : ∀ e ∈ (drain scores R'.head? m.sender (rem m.sender)).1, e.sender = m.sender := by
       intro e he
       apply h.snd m.sender e
       rw [← happ]; exact List.mem_append_left _ he
-    unfold iter
-    simp only [hnp, Bool.false_eq_true, if_false]
-    refine ⟨ih1, ?_⟩
-    intro s
-    rw [List.filter_append, ih2 s]
-    simp only [upd]
-    split
-    · rename_i hs; subst hs
-      have : (drain scores R'.head? m.sender (rem m.sender)).1.filter (fun t => t.sender == m.sender)
-          = (drain scores R'.head? m.sender (rem m.sender)).1 := by
-        rw [List.filter_eq_self]
-        intro a ha; simp [hsnd a ha]
-      rw [this, happ]
-    · rename_i hs
-      have : (drain scores R'.head? m.sender (rem m.sender)).1.filter (fun t => t.sender == s) = [] := by
-        rw [List.filter_eq_nil_iff]
-        intro a ha
-        rw [hsnd a ha]
-        simp only [beq_iff_eq]
-        exact fun e => hs e.symm
-      rw [this, List.nil_append]
+    cases hnp : (drain scores R'.head? m.sender (rem m.sender)).2.2 with
+    | true =>
+      have hit : iter scores (m :: R') rem = ((drain scores R'.head? m.sender (rem m.sender)).1, true) := by
+        simp only [iter, hnp, if_true]
+      rw [hit]
+      refine ⟨?_, ?_, ?_⟩
+      · intro s
+        by_cases hs : s = m.sender
+        · subst hs
+          rw [filter_sender_self _ _ hsnd]
+          exact ⟨_, happ⟩
+        · rw [filter_sender_other _ _ _ hsnd hs]; exact List.nil_prefix
+      · intro hc; cases hc
+      · intro _
+        obtain ⟨e, he, hpe⟩ := drain_panic _ _ _ _ hnp
+        exact ⟨m.sender, e, he, (passes_panic _ _ _ _ hpe).2⟩
+    | false =>
+      have hli := LI_step scores m R' rem h hnp
+      obtain ⟨ih1, ih2, ih3⟩ := ih _ hli
+      have hit : iter scores (m :: R') rem =
+          ((drain scores R'.head? m.sender (rem m.sender)).1 ++
+            (iter scores R' (upd rem m.sender (drain scores R'.head? m.sender (rem m.sender)).2.1)).1,
+           (iter scores R' (upd rem m.sender (drain scores R'.head? m.sender (rem m.sender)).2.1)).2) := by
+        simp only [iter, hnp, Bool.false_eq_true, if_false]
+      rw [hit]
+      refine ⟨?_, ?_, ?_⟩
+      · intro s
+        rw [List.filter_append]
+        have := ih1 s
+        simp only [upd] at this
+        split at this
+        · rename_i hs; subst hs
+          rw [filter_sender_self _ _ hsnd]
+          have h2 := (List.prefix_append_right_inj
+            (drain scores R'.head? m.sender (rem m.sender)).1).mpr this
+          rw [happ] at h2
+          exact h2
+        · rename_i hs
+          rw [filter_sender_other _ _ _ hsnd hs, List.nil_append]
+          exact this
+      · intro hc s
+        rw [List.filter_append, ih2 hc s]
+        simp only [upd]
+        split
+        · rename_i hs; subst hs
+          rw [filter_sender_self _ _ hsnd, happ]
+        · rename_i hs
+          rw [filter_sender_other _ _ _ hsnd hs, List.nil_append]
+      · intro hc
+        obtain ⟨s, e, he, hpe⟩ := ih3 hc
+        exact ⟨s, e, upd_drain_sub _ _ _ _ s e he, hpe⟩
 
 /-- class order, recursively: when `t` is yielded, the first later transaction of any other
     sender does not have a higher priority -/
@@ -997,26 +1130,42 @@ theorem iter_co (scores : String → Nat → Option Score) (R : List PNode) :
   | nil => intro rem _; simp [iter, CO]
   | cons m R' ih =>
     intro rem h
-    obtain ⟨hnp, hli⟩ := LI_step scores m R' rem h
-    have hco := ih _ hli
-    obtain ⟨_, hfil⟩ := iter_filter scores R' _ hli
     have happ := drain_append scores R'.head? m.sender (rem m.sender)
-    unfold iter
-    simp only [hnp, Bool.false_eq_true, if_false]
-    apply co_append _ _ m.sender (nextPrio R'.head?) _ _ hco
-    · intro t ht
+    have hys : ∀ t ∈ (drain scores R'.head? m.sender (rem m.sender)).1,
+        t.sender = m.sender ∧ nextPrio R'.head? ≤ t.prio := by
+      intro t ht
       have hmem : t ∈ rem m.sender := by rw [← happ]; exact List.mem_append_left _ ht
-      exact ⟨h.snd _ t hmem,
-        passes_pass_ge scores _ _ t (drain_pass scores _ _ _ t ht) (h.pmin _ t hmem)⟩
-    · intro u hu hf
-      rw [← List.head?_filter, hfil u.sender] at hf
-      cases hr : upd rem m.sender (drain scores R'.head? m.sender (rem m.sender)).2.1 u.sender with
-      | nil => rw [hr] at hf; cases hf
+      exact ⟨h.snd _ t hmem, passes_pass_ge scores _ _ t (drain_pass scores _ _ _ t ht)⟩
+    cases hnp : (drain scores R'.head? m.sender (rem m.sender)).2.2 with
+    | true =>
+      have hit : iter scores (m :: R') rem = ((drain scores R'.head? m.sender (rem m.sender)).1, true) := by
+        simp only [iter, hnp, if_true]
+      rw [hit]
+      have := co_append _ [] m.sender (nextPrio R'.head?) hys (by intro u _ hf; simp at hf) trivial
+      simpa using this
+    | false =>
+      have hli := LI_step scores m R' rem h hnp
+      have hco := ih _ hli
+      obtain ⟨hfil, _, _⟩ := iter_filter scores R' _ hli
+      have hit : iter scores (m :: R') rem =
+          ((drain scores R'.head? m.sender (rem m.sender)).1 ++
+            (iter scores R' (upd rem m.sender (drain scores R'.head? m.sender (rem m.sender)).2.1)).1,
+           (iter scores R' (upd rem m.sender (drain scores R'.head? m.sender (rem m.sender)).2.1)).2) := by
+        simp only [iter, hnp, Bool.false_eq_true, if_false]
+      rw [hit]
+      apply co_append _ _ m.sender (nextPrio R'.head?) hys _ hco
+      intro u hu hf
+      rw [← List.head?_filter] at hf
+      have hpre := hfil u.sender
+      cases hfl : (iter scores R' (upd rem m.sender (drain scores R'.head? m.sender (rem m.sender)).2.1)).1.filter
+          (fun v => v.sender == u.sender) with
+      | nil => rw [hfl] at hf; cases hf
       | cons e es =>
-        rw [hr] at hf
+        rw [hfl] at hf hpre
         simp only [List.head?_cons, Option.some.injEq] at hf
         subst hf
-        obtain ⟨k, hk, ho⟩ := hli.head _ e es hr
+        obtain ⟨tl, htl⟩ := hpre
+        obtain ⟨k, hk, ho⟩ := hli.head _ e (es ++ tl) (by rw [← htl]; rfl)
         rw [← ho.2.2.1]
         cases R' with
         | nil => cases hk
@@ -1028,7 +1177,8 @@ theorem iter_co (scores : String → Nat → Option Score) (R : List PNode) :
             omega
 
 /-- from the invariant to the iterator's loop invariant at the start of the iteration -/
-theorem LI_of_inv {mp : Pool} {P : List Tx} (h : Inv mp P) : LI mp.scores mp.pidx mp.sidx := by
+theorem LI_of_inv {mp : Pool} {P : List Tx} (h : Inv mp P) (hge : ∀ t ∈ P, minInt64 ≤ t.prio) :
+    LI mp.scores mp.pidx mp.sidx := by
   have hown : ∀ s, ∀ e ∈ mp.sidx s, ∃ k ∈ mp.pidx, Own mp.scores k s e := by
     intro s e he
     obtain ⟨heP, hes⟩ := (h.smem s e).mp he
@@ -1043,7 +1193,7 @@ theorem LI_of_inv {mp : Pool} {P : List Tx} (h : Inv mp P) : LI mp.scores mp.pid
   · exact h.psorted
   · intro s e he; exact Or.inl (hown s e he)
   · intro s e es hr; exact hown s e (by rw [hr]; simp)
-  · intro s e he; exact h.prio_gt e ((h.smem s e).mp he).1
+  · intro s e he; exact hge e ((h.smem s e).mp he).1
   · intro s e he; exact ((h.smem s e).mp he).2
 
 theorem select_eq_iter (mp : Pool) :
@@ -1079,16 +1229,20 @@ theorem ssorted_nodup (l : List Tx) (h : SSorted l) : l.Nodup := by
   exact h.imp (fun hlt e => by subst e; omega)
 
 /-- everything the iterator theorems need about `Select` in a state that satisfies the invariant -/
-theorem select_spec {mp : Pool} {P : List Tx} (h : Inv mp P) :
-    mp.select.2.2 = false ∧
-    (∀ s, mp.select.2.1.filter (fun t => t.sender == s) = mp.select.1.sidx s) ∧
+theorem select_spec {mp : Pool} {P : List Tx} (h : Inv mp P) (hge : ∀ t ∈ P, minInt64 ≤ t.prio) :
+    (∀ s, mp.select.2.1.filter (fun t => t.sender == s) <+: mp.select.1.sidx s) ∧
+    (mp.select.2.2 = false → ∀ s, mp.select.2.1.filter (fun t => t.sender == s) = mp.select.1.sidx s) ∧
+    (mp.select.2.2 = true → ∃ t ∈ P, t.prio = minInt64) ∧
     CO mp.select.2.1 ∧ Inv mp.select.1 P := by
   have hi := inv_select h
-  have hli := LI_of_inv hi
+  have hli := LI_of_inv hi hge
   have h1 := iter_filter _ _ _ hli
   have h2 := iter_co _ _ _ hli
   rw [← select_eq_iter] at h1 h2
-  exact ⟨h1.1, h1.2, h2, hi⟩
+  refine ⟨h1.1, h1.2.1, ?_, h2, hi⟩
+  intro hp
+  obtain ⟨s, e, he, hpe⟩ := h1.2.2 hp
+  exact ⟨e, ((hi.smem s e).mp he).1, hpe⟩
 
 theorem perm_of_filter_eq {mp : Pool} {P : List Tx} (h : Inv mp P) (out : List Tx)
     (hf : ∀ s, out.filter (fun t => t.sender == s) = mp.sidx s) : out.Perm P := by
@@ -1101,6 +1255,156 @@ theorem perm_of_filter_eq {mp : Pool} {P : List Tx} (h : Inv mp P) (out : List T
   by_cases ha : a ∈ P
   · rw [if_pos ha, if_pos (this.mpr ⟨ha, rfl⟩)]
   · rw [if_neg ha, if_neg (fun hm => ha (this.mp hm).1)]
+
+/-- safety from the prefix property alone: nothing twice, nothing that is not pending -/
+theorem safe_of_filter_prefix {mp : Pool} {P : List Tx} (h : Inv mp P) (out : List Tx)
+    (hf : ∀ s, out.filter (fun t => t.sender == s) <+: mp.sidx s) :
+    out.Nodup ∧ (∀ t ∈ out, t ∈ P) ∧
+    ∀ s, ((out.filter (fun t => t.sender == s)).map Tx.nonce).Pairwise (· < ·) := by
+  refine ⟨?_, ?_, ?_⟩
+  · rw [List.nodup_iff_count]
+    intro a
+    have h1 : List.count a out = List.count a (out.filter (fun t => t.sender == a.sender)) := by
+      rw [List.count_filter]; simp
+    rw [h1]
+    exact Nat.le_trans ((hf a.sender).sublist.count_le a)
+      (List.nodup_iff_count.mp (ssorted_nodup _ (h.ssorted _)) a)
+  · intro t ht
+    have : t ∈ out.filter (fun x => x.sender == t.sender) := List.mem_filter.mpr ⟨ht, by simp⟩
+    exact ((h.smem t.sender t).mp (List.IsPrefix.mem this (hf t.sender))).1
+  · intro s
+    rw [List.pairwise_map]
+    exact List.Pairwise.sublist (hf s).sublist (h.ssorted s)
+
+/-- a prefix of a nonce-sorted list is closed under "smaller nonce": what was yielded of a
+    sender has no gap below it -/
+theorem prefix_sorted_closed (L' L : List Tx) (hs : SSorted L) (hp : L' <+: L) (t t' : Tx)
+    (ht : t ∈ L') (ht' : t' ∈ L) (hlt : t'.nonce < t.nonce) : t' ∈ L' := by
+  obtain ⟨tl, rfl⟩ := hp
+  rcases List.mem_append.mp ht' with h | h
+  · exact h
+  · have := (List.pairwise_append.mp hs).2.2 t ht t' h
+    omega
+
+/-! ### the iterator one `Next()` at a time: exhausting it is `iter` -/
+
+theorem upd_self {α : Type} (f : String → α) (s : String) : upd f s (f s) = f := by
+  funext x
+  simp only [upd]
+  split
+  · rename_i h; rw [h]
+  · rfl
+
+theorem iter_rem_nil (scores : String → Nat → Option Score) (m : PNode) (rest : List PNode)
+    (rem : String → List Tx) (h : rem m.sender = []) :
+    iter scores (m :: rest) rem = iter scores rest rem := by
+  have hu : upd rem m.sender [] = rem := by rw [← h]; exact upd_self rem m.sender
+  simp only [iter, h, drain, Bool.false_eq_true, if_false, hu, List.nil_append]
+
+theorem iter_rem_stop (scores : String → Nat → Option Score) (m : PNode) (rest : List PNode)
+    (rem : String → List Tx) (e : Tx) (es : List Tx) (h : rem m.sender = e :: es)
+    (hp : passes scores rest.head? m.sender e = .stop) :
+    iter scores (m :: rest) rem = iter scores rest rem := by
+  have hu : upd rem m.sender (e :: es) = rem := by rw [← h]; exact upd_self rem m.sender
+  simp only [iter, h, drain, hp, Bool.false_eq_true, if_false, hu, List.nil_append]
+
+theorem iter_rem_panic (scores : String → Nat → Option Score) (m : PNode) (rest : List PNode)
+    (rem : String → List Tx) (e : Tx) (es : List Tx) (h : rem m.sender = e :: es)
+    (hp : passes scores rest.head? m.sender e = .panic) :
+    iter scores (m :: rest) rem = ([], true) := by
+  simp only [iter, h, drain, hp, if_true]
+
+theorem iter_rem_pass (scores : String → Nat → Option Score) (m : PNode) (rest : List PNode)
+    (rem : String → List Tx) (e : Tx) (es : List Tx) (h : rem m.sender = e :: es)
+    (hp : passes scores rest.head? m.sender e = .pass) :
+    iter scores (m :: rest) rem =
+      (e :: (iter scores (m :: rest) (upd rem m.sender es)).1,
+       (iter scores (m :: rest) (upd rem m.sender es)).2) := by
+  have hu : upd rem m.sender es m.sender = es := by simp [upd]
+  simp only [iter, h, drain, hp, hu, upd_upd]
+  cases (drain scores rest.head? m.sender es).2.2 <;> simp
+
+/-- what `k` rounds of `Tx()`/`Next()` produce, against the exhaustive `iter` -/
+def RunSpec (r : List Tx × IterResult) (I : List Tx × Bool) (k : Nat) : Prop :=
+  r.1 = I.1.take k ∧
+  match r.2 with
+  | .panic => I.2 = true ∧ r.1 = I.1
+  | .done => I.2 = false ∧ r.1 = I.1
+  | .at _ => r.1.length = k
+
+theorem runIter_done (scores : String → Nat → Option Score) (k : Nat) :
+    runIter scores k .done = ([], .done) := by
+  cases k <;> rfl
+
+theorem runIter_panic (scores : String → Nat → Option Score) (k : Nat) :
+    runIter scores k .panic = ([], .panic) := by
+  cases k <;> rfl
+
+theorem runSpec_cons (r : List Tx × IterResult) (I : List Tx × Bool) (k : Nat) (e : Tx)
+    (h : RunSpec r I k) : RunSpec (e :: r.1, r.2) (e :: I.1, I.2) (k + 1) := by
+  obtain ⟨h1, h2⟩ := h
+  refine ⟨by simp [h1], ?_⟩
+  revert h2
+  cases r.2 with
+  | panic => intro h2; exact ⟨h2.1, by simp [h2.2]⟩
+  | done => intro h2; exact ⟨h2.1, by simp [h2.2]⟩
+  | «at» it => intro h2; simp only [List.length_cons]; omega
+
+theorem runIter_advance (scores : String → Nat → Option Score) (R : List PNode) :
+    ∀ (rem : String → List Tx) (k : Nat),
+      RunSpec (runIter scores k (advance scores R rem)) (iter scores R rem) k := by
+  induction R with
+  | nil =>
+    intro rem k
+    simp only [advance, runIter_done, iter]
+    exact ⟨by simp, rfl, rfl⟩
+  | cons m rest ih =>
+    have inner : ∀ (l : List Tx) (rem : String → List Tx), rem m.sender = l → ∀ k,
+        RunSpec (runIter scores k (advance scores (m :: rest) rem)) (iter scores (m :: rest) rem) k := by
+      intro l
+      induction l with
+      | nil =>
+        intro rem hl k
+        have : advance scores (m :: rest) rem = advance scores rest rem := by
+          simp only [advance, hl]
+        rw [this, iter_rem_nil scores m rest rem hl]
+        exact ih rem k
+      | cons e es ihl =>
+        intro rem hl k
+        cases hp : passes scores rest.head? m.sender e with
+        | stop =>
+          have : advance scores (m :: rest) rem = advance scores rest rem := by
+            simp only [advance, hl, hp]
+          rw [this, iter_rem_stop scores m rest rem e es hl hp]
+          exact ih rem k
+        | panic =>
+          have : advance scores (m :: rest) rem = .panic := by
+            simp only [advance, hl, hp]
+          rw [this, iter_rem_panic scores m rest rem e es hl hp, runIter_panic]
+          exact ⟨by simp, rfl, rfl⟩
+        | pass =>
+          have : advance scores (m :: rest) rem = .at ⟨m :: rest, upd rem m.sender es, e⟩ := by
+            simp only [advance, hl, hp]
+          rw [this, iter_rem_pass scores m rest rem e es hl hp]
+          cases k with
+          | zero => exact ⟨by simp [runIter], by simp [runIter]⟩
+          | succ k =>
+            have hrec := ihl (upd rem m.sender es) (by simp [upd]) k
+            have := runSpec_cons _ _ k e hrec
+            simpa only [runIter, Iter.next] using this
+    intro rem k
+    exact inner (rem m.sender) rem rfl k
+
+theorem selectN_spec (mp : Pool) (k : Nat) :
+    (mp.selectN k).1 = mp.select.1 ∧ RunSpec (mp.selectN k).2 mp.select.2 k := by
+  unfold Pool.selectN Pool.selectStart Pool.select
+  split
+  · refine ⟨rfl, ?_⟩
+    simp only [runIter_done]
+    exact ⟨by simp, rfl, rfl⟩
+  · exact ⟨rfl, runIter_advance _ _ _ k⟩
+
+/-! ### `NewDefaultTxPriority` -/
 
 theorem prefix_excl {u p q : List Char} (hp : p <+: u) (hq : q <+: u) : p <+: q ∨ q <+: p := by
   rcases Nat.le_total p.length q.length with h | h
@@ -1115,15 +1419,198 @@ theorem hasPrefix_excl (u p q : String) (hp : hasPrefix u p = true) (hq : hasPre
   · exact h1 h
   · exact h2 h
 
+
+/-- the priority class of a transaction as the property text defines it — 4 consensus queue,
+    3 scheduler, 2 bridge chain (evm), 1 validator set, for single-message transactions; 0 for
+    everything else.  Defined without reference to `classTable` or to any priority value. -/
+def classOf : List String → Nat
+  | [u] =>
+    if hasPrefix u "/palomachain.paloma.consensus." then 4
+    else if hasPrefix u "/palomachain.paloma.scheduler." then 3
+    else if hasPrefix u "/palomachain.paloma.evm." then 2
+    else if hasPrefix u "/palomachain.paloma.valset." then 1
+    else 0
+  | _ => 0
+
+/-- the priority `GetTxPriority` must return for a class and a CheckTx priority -/
+def rankPrio (cl : Nat) (c : Int) : Int :=
+  if cl = 0 then c
+  else if cl = 1 then maxInt64 - 3
+  else if cl = 2 then maxInt64 - 2
+  else if cl = 3 then maxInt64 - 1
+  else maxInt64
+
+theorem classOf_le (urls : List String) : classOf urls ≤ 4 := by
+  unfold classOf
+  split
+  · repeat' split
+    all_goals omega
+  · omega
+
+/-- `GetTxPriority` computes the class rank of the property text -/
+theorem txPriority_rank (urls : List String) (c : Int) :
+    txPriority urls c = rankPrio (classOf urls) c := by
+  match urls with
+  | [] => rfl
+  | _ :: _ :: _ => rfl
+  | [u] =>
+    simp only [txPriority, classOf, classRank, classTable]
+    by_cases h1 : hasPrefix u "/palomachain.paloma.consensus." = true
+    · simp [List.find?, h1, rankPrio]
+    · by_cases h2 : hasPrefix u "/palomachain.paloma.scheduler." = true
+      · simp [List.find?, h1, h2, rankPrio]
+      · by_cases h3 : hasPrefix u "/palomachain.paloma.evm." = true
+        · simp [List.find?, h1, h2, h3, rankPrio]
+        · by_cases h4 : hasPrefix u "/palomachain.paloma.valset." = true
+          · simp [List.find?, h1, h2, h3, h4, rankPrio]
+          · simp [List.find?, h1, h2, h3, h4, rankPrio]
+
+theorem rankPrio_lt (a b : Nat) (hb : b ≤ 4) (hab : a < b) (c1 c2 : Int)
+    (h1 : c1 < maxInt64 - 3) : rankPrio a c1 < rankPrio b c2 := by
+  have ha : a = 0 ∨ a = 1 ∨ a = 2 ∨ a = 3 := by omega
+  have hb' : b = 1 ∨ b = 2 ∨ b = 3 ∨ b = 4 := by omega
+  rcases ha with rfl | rfl | rfl | rfl <;> rcases hb' with rfl | rfl | rfl | rfl <;>
+    first
+    | omega
+    | (simp [rankPrio, maxInt64] at h1 ⊢ <;> omega)
+
+theorem rankPrio_bounds (a : Nat) (c : Int) (hc : minInt64 ≤ c ∧ c ≤ maxInt64) :
+    minInt64 ≤ rankPrio a c ∧ rankPrio a c ≤ maxInt64 ∧ (minInt64 < c → minInt64 < rankPrio a c) := by
+  unfold rankPrio
+  simp only [minInt64, maxInt64] at *
+  repeat' split
+  all_goals omega
+
+/-! ### histories of application-level operations (`TxOp`) -/
+
+/-- a pending transaction together with what `Insert` was given: the type URLs of its messages
+    and the CheckTx priority of the context -/
+structure PTx where
+  tx : Tx
+  urls : List String
+  ctxPrio : Int
+
+/-- the pending set of a `TxOp` history, with URLs and CheckTx priorities: defined from the
+    history alone, like `pending` -/
+def tpendingStep (P : List PTx) : TxOp → List PTx
+  | .insert s n urls c id =>
+    ⟨⟨s, n, txPriority urls c, id⟩, urls, c⟩ :: P.filter (fun x => !(x.tx.sender == s && x.tx.nonce == n))
+  | .remove s n => P.filter (fun x => !(x.tx.sender == s && x.tx.nonce == n))
+  | .select => P
+
+def tpending (tops : List TxOp) : List PTx := tops.foldl tpendingStep []
+
+theorem tpendingStep_tx (P : List PTx) (op : TxOp) :
+    (tpendingStep P op).map PTx.tx = pendingStep (P.map PTx.tx) op.toOp := by
+  cases op with
+  | insert s n urls c id =>
+    simp only [tpendingStep, TxOp.toOp, pendingStep, List.map_cons, List.filter_map]
+    rfl
+  | remove s n =>
+    simp only [tpendingStep, TxOp.toOp, pendingStep, List.filter_map]
+    rfl
+  | select => rfl
+
+theorem tpending_fold_tx (tops : List TxOp) : ∀ P : List PTx,
+    (tops.foldl tpendingStep P).map PTx.tx = (tops.map TxOp.toOp).foldl pendingStep (P.map PTx.tx) := by
+  induction tops with
+  | nil => intro P; rfl
+  | cons op tops ih =>
+    intro P
+    rw [List.foldl_cons, List.map_cons, List.foldl_cons, ih, tpendingStep_tx]
+
+/-- the model's pending set is the `TxOp` pending set with the URLs forgotten -/
+theorem tpending_tx (tops : List TxOp) :
+    (tpending tops).map PTx.tx = pending (tops.map TxOp.toOp) :=
+  tpending_fold_tx tops []
+
+/-- every pending transaction was inserted by an operation of the history, with the recorded
+    URLs and CheckTx priority, and its priority is what `GetTxPriority` computes from them -/
+theorem tpending_fold_prov (tops : List TxOp) : ∀ P : List PTx, ∀ x ∈ tops.foldl tpendingStep P,
+    x ∈ P ∨ (x.tx.prio = txPriority x.urls x.ctxPrio ∧
+      TxOp.insert x.tx.sender x.tx.nonce x.urls x.ctxPrio x.tx.id ∈ tops) := by
+  induction tops with
+  | nil => intro P x h; exact Or.inl h
+  | cons op tops ih =>
+    intro P x h
+    rw [List.foldl_cons] at h
+    rcases ih _ x h with h | h
+    · cases op with
+      | insert s n urls c id =>
+        simp only [tpendingStep] at h
+        rcases List.mem_cons.mp h with h | h
+        · subst h; exact Or.inr ⟨rfl, List.mem_cons_self⟩
+        · exact Or.inl (List.mem_filter.mp h).1
+      | remove s n => exact Or.inl (List.mem_filter.mp h).1
+      | select => exact Or.inl h
+    · exact Or.inr ⟨h.1, List.mem_cons_of_mem _ h.2⟩
+
+theorem tpending_prov (tops : List TxOp) : ∀ x ∈ tpending tops,
+    x.tx.prio = txPriority x.urls x.ctxPrio ∧
+    TxOp.insert x.tx.sender x.tx.nonce x.urls x.ctxPrio x.tx.id ∈ tops := by
+  intro x hx
+  rcases tpending_fold_prov tops [] x hx with h | h
+  · cases h
+  · exact h
+
+theorem mem_map_toOp_insert (tops : List TxOp) (s : String) (n : Nat) (p : Int) (id : Nat)
+    (h : Op.insert s n p id ∈ tops.map TxOp.toOp) :
+    ∃ urls c, TxOp.insert s n urls c id ∈ tops ∧ p = txPriority urls c := by
+  rcases List.mem_map.mp h with ⟨op, hop, e⟩
+  cases op with
+  | insert s' n' urls c id' =>
+    simp only [TxOp.toOp, Op.insert.injEq] at e
+    obtain ⟨rfl, rfl, rfl, rfl⟩ := e
+    exact ⟨urls, c, hop, rfl⟩
+  | remove s' n' => simp [TxOp.toOp] at e
+  | select => simp [TxOp.toOp] at e
+
+/-- the CheckTx priorities of a `TxOp` history are Go `int64` values (typing, not a restriction) -/
+def Int64Ctx (tops : List TxOp) : Prop :=
+  ∀ s n urls c id, TxOp.insert s n urls c id ∈ tops → minInt64 ≤ c ∧ c ≤ maxInt64
+
+theorem int64Prios_of_ctx {tops : List TxOp} (h : Int64Ctx tops) : Int64Prios (tops.map TxOp.toOp) := by
+  intro s n p id hm
+  obtain ⟨urls, c, hin, rfl⟩ := mem_map_toOp_insert tops s n p id hm
+  have := rankPrio_bounds (classOf urls) c (h _ _ _ _ _ hin)
+  rw [txPriority_rank]
+  exact ⟨this.1, this.2.1⟩
+
+/-- if no CheckTx priority is the `MinValue` sentinel, no pending priority is -/
+theorem noMin_of_ctx {tops : List TxOp} (h : Int64Ctx tops)
+    (hmin : ∀ s n urls c id, TxOp.insert s n urls c id ∈ tops → c ≠ minInt64) :
+    NoMin (pending (tops.map TxOp.toOp)) := by
+  intro t ht
+  rw [← tpending_tx] at ht
+  rcases List.mem_map.mp ht with ⟨x, hx, rfl⟩
+  obtain ⟨hp, hin⟩ := tpending_prov tops x hx
+  have hb := h _ _ _ _ _ hin
+  have := (rankPrio_bounds (classOf x.urls) x.ctxPrio hb).2.2
+    (by have := hmin _ _ _ _ _ hin; omega)
+  rw [hp, txPriority_rank]
+  omega
+
 end Lemmas
 
-/-! ## Property theorems (C19) -/
+/-! ## Property theorems (C19)
 
-/-- **index_consistent.** After any history of `Insert`, `Remove` and `Select` in which an
-inserted (sender, nonce) is never already pending (or is re-inserted with an unchanged priority; and no priority is the
-`MinValue` sentinel), the priority index, the per-sender indices, `scores` and `priorityCounts` all
-describe exactly the pending set, the priority index is sorted by the code's comparator, every
-sender index by nonce, and `CountTx` is the number of pending transactions. -/
+Reading guide.  `Admissible ops` is the property's own precondition and nothing else: an inserted
+(sender, nonce) is not pending (or replaces a pending transaction of the same priority).
+`pending ops` is the specification of the pending set, a function of the history alone.
+`Int64Prios ops` is the Go type of the priorities (`int64`), not a restriction.
+`NoMin (pending ops)` — "no pending priority is the `MinValue` sentinel" — is a SIDE CONDITION that
+is **not** in the property statement; it is needed for exactly one clause ("every pending
+transaction is yielded"), that clause is false without it (`select_complete_false_at_minvalue`, a
+behaviour of /repo reproduced by the harness), and it holds in the application
+(`mempool_app`: `TxFeeSkipper` makes every CheckTx priority 42). -/
+
+/-- **index_consistent** (clause "the pool's count always equals the number of pending
+transactions", and the mechanism "indices kept in step").  After any history of `Insert`,
+`Remove` and `Select` in which an inserted (sender, nonce) is never already pending (or is
+re-inserted with an unchanged priority) — *whatever the priorities are, `MinValue` included* —
+the priority index, the per-sender indices, `scores` and `priorityCounts` all describe exactly
+the pending set, the priority index is sorted by the code's comparator, every sender index by
+nonce, and `CountTx` is the number of pending transactions. -/
 theorem index_consistent (ops : List Op) (h : Admissible ops) :
     Inv (run ops) (pending ops) ∧
     ((run ops).pidx.map PNode.tx).Perm (pending ops) ∧
@@ -1157,46 +1644,199 @@ theorem index_consistent (ops : List Op) (h : Admissible ops) :
     rw [List.length_map] at this
     exact this
 
-/-- **select_perm.** After any admissible history, `Select` (iterated to exhaustion) does not
-hit the nil dereference in `Next`, and yields a permutation of the pending set: every pending
-transaction exactly once, and nothing else — in particular no removed transaction.  Since the
-history is arbitrary and may itself contain `select`s, this covers repeated selects. -/
-theorem select_perm (ops : List Op) (h : Admissible ops) :
+/-- **count_always.** "Always": at every point of an admissible history (every prefix `pre`),
+`CountTx` equals the number of pending transactions.  (`Admissible` is prefix-closed:
+`Admissible.prefix`.) -/
+theorem count_always (pre post : List Op) (h : Admissible (pre ++ post)) :
+    (run pre).count = (pending pre).length :=
+  (index_consistent pre h.prefix).2.2.2.2.2
+
+/-- **remove_found_iff** (the rejected branch of `Remove`).  `Remove` succeeds exactly for a
+pending (sender, nonce) and answers `ErrTxNotFound` — leaving the pool as it is — otherwise. -/
+theorem remove_found_iff (ops : List Op) (h : Admissible ops) (s : String) (n : Nat) :
+    (((run ops).remove s n).2 = true ↔ ∃ t ∈ pending ops, t.sender = s ∧ t.nonce = n) ∧
+    (((run ops).remove s n).2 = false → ((run ops).remove s n).1 = run ops) := by
+  have hs := (index_consistent ops h).2.2.2.1 s n
+  rw [← hs]
+  unfold Pool.remove
+  cases (run ops).scores s n <;> simp
+
+/-- **pending_provenance.** The specification set is tied to the history: a pending transaction
+is the argument of an `insert` operation of the history (same sender, nonce, priority, id). -/
+theorem pending_provenance (ops : List Op) (t : Tx) (ht : t ∈ pending ops) :
+    Op.insert t.sender t.nonce t.prio t.id ∈ ops := by
+  rcases foldl_pending_mem ops [] t ht with h | h
+  · cases h
+  · exact h
+
+/-- **inserted_pending.** Conversely, a transaction inserted by the history is pending at the end
+unless a later operation concerns its (sender, nonce) — so `pending` is neither too small nor too
+large, and "every pending transaction is yielded" speaks about exactly the inserted, not yet
+removed or replaced transactions. -/
+theorem inserted_pending (pre post : List Op) (s : String) (n : Nat) (p : Int) (id : Nat)
+    (hpost : ∀ op ∈ post, ¬ touches s n op) :
+    (⟨s, n, p, id⟩ : Tx) ∈ pending (pre ++ .insert s n p id :: post) := by
+  rw [pending_append, List.foldl_cons]
+  exact foldl_pending_keep post _ ⟨s, n, p, id⟩ (by simp [pendingStep]) hpost
+
+/-- **removed_not_pending** (clause "never a removed one", on the history).  After
+`remove s n`, as long as (s, n) is not inserted again, no transaction with that sender and
+nonce is pending — hence, by `select_safe`, none is ever yielded. -/
+theorem removed_not_pending (pre post : List Op) (s : String) (n : Nat)
+    (hpost : ∀ p id, Op.insert s n p id ∉ post) :
+    ∀ t ∈ pending (pre ++ .remove s n :: post), ¬ (t.sender = s ∧ t.nonce = n) := by
+  intro t ht hk
+  rw [pending_append, List.foldl_cons] at ht
+  rcases foldl_pending_mem post _ t ht with h | h
+  · simp only [pendingStep, List.mem_filter] at h
+    simp [hk.1, hk.2] at h
+  · rw [hk.1, hk.2] at h
+    exact hpost _ _ h
+
+/-- **select_safe** (clauses "exactly once" — at most once —, "never a removed one", "each
+sender's transactions in strictly increasing sequence-number order"), with **no** condition on
+priority values: after any admissible history, whether or not `Next` hits its nil dereference,
+what `Select` has yielded up to that point
+* contains no transaction twice,
+* contains only pending transactions (so nothing removed or replaced),
+* lists every sender's transactions in strictly increasing nonce order, without skipping a
+  pending transaction of that sender with a smaller nonce;
+and the iterator panics only if some pending priority is the `MinValue` sentinel; if it does
+not panic the result is a permutation of the pending set. -/
+theorem select_safe (ops : List Op) (h : Admissible ops) (h64 : Int64Prios ops) :
+    (run ops).select.2.1.Nodup ∧
+    (∀ t ∈ (run ops).select.2.1, t ∈ pending ops) ∧
+    (∀ s, (((run ops).select.2.1.filter (fun t => t.sender == s)).map Tx.nonce).Pairwise (· < ·)) ∧
+    (∀ t ∈ (run ops).select.2.1, ∀ t' ∈ pending ops, t'.sender = t.sender → t'.nonce < t.nonce →
+      t' ∈ (run ops).select.2.1) ∧
+    ((run ops).select.2.2 = true → ∃ t ∈ pending ops, t.prio = minInt64) ∧
+    ((run ops).select.2.2 = false → (run ops).select.2.1.Perm (pending ops)) := by
+  have hi := inv_run ops h
+  obtain ⟨h1, h2, h3, _, h5⟩ := select_spec hi (pending_ge h64)
+  obtain ⟨s1, s2, s3⟩ := safe_of_filter_prefix h5 _ h1
+  refine ⟨s1, s2, s3, ?_, h3, fun hnp => perm_of_filter_eq h5 _ (h2 hnp)⟩
+  intro t ht t' ht' hs hlt
+  have htf : t ∈ (run ops).select.2.1.filter (fun x => x.sender == t.sender) :=
+    List.mem_filter.mpr ⟨ht, by simp⟩
+  have ht'm : t' ∈ (run ops).select.1.sidx t.sender := (h5.smem _ _).mpr ⟨ht', hs⟩
+  exact (List.mem_filter.mp
+    (prefix_sorted_closed _ _ (h5.ssorted _) (h1 t.sender) t t' htf ht'm hlt)).1
+
+/-- **select_perm** (clause "yields every pending transaction exactly once, never a removed
+one").  After any admissible history in which no pending priority is the `MinValue` sentinel,
+`Select` (iterated to exhaustion) does not hit the nil dereference in `Next`, and yields a
+permutation of the pending set without repetition: every pending transaction exactly once, and
+nothing else.  Since the history is arbitrary and may itself contain `select`s, this covers
+repeated selects.  The side condition `NoMin` cannot be dropped:
+`select_complete_false_at_minvalue`. -/
+theorem select_perm (ops : List Op) (h : Admissible ops) (h64 : Int64Prios ops)
+    (hmin : NoMin (pending ops)) :
     (run ops).select.2.2 = false ∧
     (run ops).select.2.1.Perm (pending ops) ∧
-    (∀ t ∈ (run ops).select.2.1, t ∈ pending ops) := by
-  have hi := inv_run ops h
-  obtain ⟨h1, h2, _, h4⟩ := select_spec hi
-  have hp := perm_of_filter_eq h4 _ h2
-  exact ⟨h1, hp, fun t ht => hp.mem_iff.mp ht⟩
+    (run ops).select.2.1.Nodup ∧
+    (∀ t, t ∈ (run ops).select.2.1 ↔ t ∈ pending ops) := by
+  obtain ⟨s1, _, _, _, s5, s6⟩ := select_safe ops h h64
+  have hnp : (run ops).select.2.2 = false := by
+    cases hp : (run ops).select.2.2 with
+    | false => rfl
+    | true =>
+      obtain ⟨t, ht, hpt⟩ := s5 hp
+      exact absurd hpt (hmin t ht)
+  exact ⟨hnp, s6 hnp, s1, fun t => (s6 hnp).mem_iff⟩
 
 /-- **select_sender_sorted.** In the sequence `Select` yields, the transactions of any one
-sender appear in strictly increasing nonce order. -/
-theorem select_sender_sorted (ops : List Op) (h : Admissible ops) (s : String) :
-    (((run ops).select.2.1.filter (fun t => t.sender == s)).map Tx.nonce).Pairwise (· < ·) := by
-  have hi := inv_run ops h
-  obtain ⟨_, h2, _, h4⟩ := select_spec hi
-  rw [h2 s, List.pairwise_map]
-  exact h4.ssorted s
+sender appear in strictly increasing nonce order (no condition on priority values). -/
+theorem select_sender_sorted (ops : List Op) (h : Admissible ops) (h64 : Int64Prios ops) (s : String) :
+    (((run ops).select.2.1.filter (fun t => t.sender == s)).map Tx.nonce).Pairwise (· < ·) :=
+  (select_safe ops h h64).2.2.1 s
 
 /-- **class_order.** Whenever `t` is yielded while `u` is the next (first not yet yielded)
 transaction of a different sender, `u` does not have a strictly higher priority than `t`:
 of two senders whose next transactions are both available, the one with the strictly higher
-priority (class) is yielded first.  Holds with priority ties across senders. -/
-theorem class_order (ops : List Op) (h : Admissible ops) (pre mid post : List Tx) (t u : Tx)
+priority (class) is yielded first.  Holds with priority ties across senders, and for whatever
+was yielded before a panic (no condition on priority values). -/
+theorem class_order (ops : List Op) (h : Admissible ops) (h64 : Int64Prios ops)
+    (pre mid post : List Tx) (t u : Tx)
     (hout : (run ops).select.2.1 = pre ++ t :: (mid ++ u :: post))
     (hne : t.sender ≠ u.sender) (hnext : ∀ v ∈ mid, v.sender ≠ u.sender) :
     u.prio ≤ t.prio := by
   have hi := inv_run ops h
-  obtain ⟨_, _, h3, _⟩ := select_spec hi
+  obtain ⟨_, _, _, h3, _⟩ := select_spec hi (pending_ge h64)
   exact co_split _ h3 pre mid post t u hout hne hnext
+
+/-- **select_in_history** (quantifier "including repeated selects between inserts").  A `select`
+anywhere inside an admissible history — with arbitrary operations, other selects included,
+before and after it — is the `Select` of the pool `run pre` the history has built up to that
+point, it leaves the pool `(run pre).select.1` to the rest of the history, and it satisfies
+every clause: no panic, permutation of the transactions pending at that point, no repetition,
+per sender increasing nonces, class order. -/
+theorem select_in_history (pre post : List Op) (h : Admissible (pre ++ .select :: post))
+    (h64 : Int64Prios (pre ++ .select :: post)) (hmin : NoMin (pending pre)) :
+    run (pre ++ .select :: post) = post.foldl Pool.step (run pre).select.1 ∧
+    (run pre).select.2.2 = false ∧
+    (run pre).select.2.1.Perm (pending pre) ∧
+    (run pre).select.2.1.Nodup ∧
+    (∀ s, (((run pre).select.2.1.filter (fun t => t.sender == s)).map Tx.nonce).Pairwise (· < ·)) ∧
+    (∀ (p mid q : List Tx) (t u : Tx), (run pre).select.2.1 = p ++ t :: (mid ++ u :: q) →
+      t.sender ≠ u.sender → (∀ v ∈ mid, v.sender ≠ u.sender) → u.prio ≤ t.prio) := by
+  have ha := h.prefix
+  have hb := h64.prefix
+  obtain ⟨p1, p2, p3, _⟩ := select_perm pre ha hb hmin
+  refine ⟨?_, p1, p2, p3, fun s => select_sender_sorted pre ha hb s,
+    fun p mid q t u => class_order pre ha hb p mid q t u⟩
+  rw [run_append, List.foldl_cons]
+  rfl
+
+/-- **selectN_prefix** (the iterator need not be exhausted).  `Select` followed by any number
+`k` of `Tx()`/`Next()` rounds — what `PrepareProposal` does until the block is full — yields
+exactly the first `k` transactions of the exhaustive sequence, and leaves the pool exactly as
+the exhaustive `Select` does.  Hence every safety clause of `select_safe` / `class_order` holds
+for the part that was taken; the loop ends with a nil iterator only after the whole sequence
+has been yielded; it ends with a panic only if the exhaustive run panics.  No hypotheses. -/
+theorem selectN_prefix (mp : Pool) (k : Nat) :
+    (mp.selectN k).1 = mp.select.1 ∧
+    (mp.selectN k).2.1 = mp.select.2.1.take k ∧
+    (match (mp.selectN k).2.2 with
+     | .panic => mp.select.2.2 = true ∧ (mp.selectN k).2.1 = mp.select.2.1
+     | .done => mp.select.2.2 = false ∧ (mp.selectN k).2.1 = mp.select.2.1
+     | .at _ => (mp.selectN k).2.1.length = k) := by
+  obtain ⟨h1, h2, h3⟩ := selectN_spec mp k
+  exact ⟨h1, h2, h3⟩
+
+/-- **selectN_complete.** After an admissible history without the `MinValue` priority, taking
+`k` transactions from the iterator yields `min k |pending|` distinct pending transactions (the
+first `k` of the exhaustive order), never panics, and if the iterator ends it has yielded a
+permutation of the pending set. -/
+theorem selectN_complete (ops : List Op) (h : Admissible ops) (h64 : Int64Prios ops)
+    (hmin : NoMin (pending ops)) (k : Nat) :
+    ((run ops).selectN k).2.1 = (run ops).select.2.1.take k ∧
+    ((run ops).selectN k).2.1.length = min k (pending ops).length ∧
+    ((run ops).selectN k).2.1.Nodup ∧
+    (∀ t ∈ ((run ops).selectN k).2.1, t ∈ pending ops) ∧
+    (match ((run ops).selectN k).2.2 with
+     | .panic => False
+     | .done => ((run ops).selectN k).2.1.Perm (pending ops)
+     | .at _ => ((run ops).selectN k).2.1.length = k) := by
+  obtain ⟨p1, p2, p3, p4⟩ := select_perm ops h h64 hmin
+  obtain ⟨_, q2, q3⟩ := selectN_prefix (run ops) k
+  refine ⟨q2, ?_, ?_, ?_, ?_⟩
+  · rw [q2, List.length_take, p2.length_eq]
+  · rw [q2]; exact List.Nodup.sublist (List.take_sublist _ _) p3
+  · intro t ht
+    rw [q2] at ht
+    exact (p4 t).mp (List.mem_of_mem_take ht)
+  · revert q3
+    cases ((run ops).selectN k).2.2 with
+    | panic => intro q3; rw [p1] at q3; cases q3.1
+    | done => intro q3; rw [q3.2]; exact p2
+    | «at» it => intro q3; exact q3
 
 /-- **classes.** `NewDefaultTxPriority`: a transaction with exactly one message whose type URL
 starts with the consensus / scheduler / evm / valset prefix gets a priority that is ordered
 consensus > scheduler > evm (bridge chains) > valset > every other transaction, whatever the
 `CheckTx` priorities are, as long as the `CheckTx` priority of the other one is below
 `MaxInt64 - 3`; transactions with zero or several messages, or an unlisted type URL, keep the
-`CheckTx` priority. -/
+`CheckTx` priority.  The bound is exact: `classes_false_at_bound`. -/
 theorem classes (uc us ue uv uo : String) (pc ps pe pv po : Int)
     (hc : hasPrefix uc "/palomachain.paloma.consensus." = true)
     (hs : hasPrefix us "/palomachain.paloma.scheduler." = true)
@@ -1254,6 +1894,201 @@ theorem classes (uc us ue uv uo : String) (pc ps pe pv po : Int)
     | [_], hl => simp at hl
     | _ :: _ :: _, _ => rfl
 
+/-- **class_rank** (clause "single-message consensus-queue, scheduler, bridge-chain and
+validator-set transactions rank in that order above all others", for arbitrary message lists).
+`GetTxPriority` is the rank of the property's class (`classOf`, defined from the property text,
+not from the code's table); a transaction of a strictly higher class gets a strictly higher
+priority than one of a lower class whose CheckTx priority is below `MaxInt64 - 3`; inside the
+class "all others" the priority is the CheckTx priority. -/
+theorem class_rank (urls urls' : List String) (c c' : Int) :
+    txPriority urls c = rankPrio (classOf urls) c ∧
+    (classOf urls = 0 → txPriority urls c = c) ∧
+    (classOf urls < classOf urls' → c < maxInt64 - 3 → txPriority urls c < txPriority urls' c') := by
+  refine ⟨txPriority_rank urls c, ?_, ?_⟩
+  · intro h0; rw [txPriority_rank, h0]; rfl
+  · intro hlt hc
+    rw [txPriority_rank, txPriority_rank]
+    exact rankPrio_lt _ _ (classOf_le urls') hlt c c' hc
+
+/-- **class_order_tx** (clause "between two senders whose next transactions are both available,
+the one in the higher priority class goes first", on histories of the operations the
+application really issues).  `Insert(ctx, tx)` is given message type URLs and a CheckTx
+priority; the priority is *derived* (`TxOp.toOp` = `GetTxPriority`).  If every CheckTx priority
+of the history is below `MaxInt64 - 3`, then whenever `t` is yielded while `u` is the next
+transaction of another sender, `t` and `u` are the pending transactions inserted with URLs
+`xt.urls`, `xu.urls` (by `insert` operations of the history), and the class of `u` is not above
+the class of `t`; inside the class "all others" the CheckTx priority of `u` is not above that
+of `t`.  The bound cannot be dropped: `classes_false_at_bound`. -/
+theorem class_order_tx (tops : List TxOp) (h : Admissible (tops.map TxOp.toOp))
+    (hc : ∀ s n urls c id, TxOp.insert s n urls c id ∈ tops → minInt64 ≤ c ∧ c < maxInt64 - 3)
+    (pre mid post : List Tx) (t u : Tx)
+    (hout : (run (tops.map TxOp.toOp)).select.2.1 = pre ++ t :: (mid ++ u :: post))
+    (hne : t.sender ≠ u.sender) (hnext : ∀ v ∈ mid, v.sender ≠ u.sender) :
+    ∃ xt ∈ tpending tops, ∃ xu ∈ tpending tops, xt.tx = t ∧ xu.tx = u ∧
+      TxOp.insert t.sender t.nonce xt.urls xt.ctxPrio t.id ∈ tops ∧
+      TxOp.insert u.sender u.nonce xu.urls xu.ctxPrio u.id ∈ tops ∧
+      classOf xu.urls ≤ classOf xt.urls ∧
+      (classOf xt.urls = 0 → xu.ctxPrio ≤ xt.ctxPrio) := by
+  have h64c : Int64Ctx tops := by
+    intro s n urls c id hin
+    have := hc s n urls c id hin
+    refine ⟨this.1, ?_⟩
+    have h2 := this.2
+    simp only [maxInt64] at h2 ⊢
+    omega
+  have h64 := int64Prios_of_ctx h64c
+  have hco := class_order _ h h64 pre mid post t u hout hne hnext
+  obtain ⟨_, hsub, _⟩ := select_safe _ h h64
+  have htm : t ∈ pending (tops.map TxOp.toOp) := hsub t (by rw [hout]; simp)
+  have hum : u ∈ pending (tops.map TxOp.toOp) := hsub u (by rw [hout]; simp)
+  rw [← tpending_tx] at htm hum
+  obtain ⟨xt, hxt, et⟩ := List.mem_map.mp htm
+  obtain ⟨xu, hxu, eu⟩ := List.mem_map.mp hum
+  obtain ⟨pt, it⟩ := tpending_prov tops xt hxt
+  obtain ⟨pu, iu⟩ := tpending_prov tops xu hxu
+  have hcu := (hc _ _ _ _ _ iu).2
+  have hct := (hc _ _ _ _ _ it).2
+  rw [et] at pt it
+  rw [eu] at pu iu
+  rw [pt, pu, txPriority_rank, txPriority_rank] at hco
+  have hle : classOf xu.urls ≤ classOf xt.urls := by
+    apply Nat.le_of_not_lt
+    intro hlt
+    have := rankPrio_lt _ _ (classOf_le xu.urls) hlt xt.ctxPrio xu.ctxPrio hct
+    omega
+  refine ⟨xt, hxt, xu, hxu, et, eu, it, iu, hle, ?_⟩
+  intro h0
+  have h0u : classOf xu.urls = 0 := by omega
+  rw [h0, h0u] at hco
+  simpa [rankPrio] using hco
+
+/-- **mempool_app** (the whole property for the mempool as `app/app.go` wires it).  The ante
+handler is built with `TxFeeChecker: TxFeeSkipper`, so `ctx.Priority()` is `appCtxPriority = 42`
+for every `Insert`.  For every history of such inserts, removes and selects with (sender,
+sequence) unique among pending transactions — and nothing else assumed — `CountTx` is the number
+of pending transactions; `Select` does not panic and yields every pending transaction exactly
+once and nothing else; each sender's transactions come in strictly increasing nonce order; and
+when `t` is yielded while `u` is the next transaction of another sender, the class of `u`
+(consensus 4 > scheduler 3 > evm 2 > valset 1 > others 0, by the URLs given to `Insert`) is not
+above the class of `t`. -/
+theorem mempool_app (tops : List TxOp) (h : Admissible (tops.map TxOp.toOp))
+    (happ : ∀ s n urls c id, TxOp.insert s n urls c id ∈ tops → c = appCtxPriority) :
+    (run (tops.map TxOp.toOp)).count = (tpending tops).length ∧
+    (run (tops.map TxOp.toOp)).select.2.2 = false ∧
+    (run (tops.map TxOp.toOp)).select.2.1.Perm ((tpending tops).map PTx.tx) ∧
+    (run (tops.map TxOp.toOp)).select.2.1.Nodup ∧
+    (∀ s, (((run (tops.map TxOp.toOp)).select.2.1.filter (fun t => t.sender == s)).map Tx.nonce).Pairwise
+      (· < ·)) ∧
+    (∀ (pre mid post : List Tx) (t u : Tx),
+      (run (tops.map TxOp.toOp)).select.2.1 = pre ++ t :: (mid ++ u :: post) →
+      t.sender ≠ u.sender → (∀ v ∈ mid, v.sender ≠ u.sender) →
+      ∃ xt ∈ tpending tops, ∃ xu ∈ tpending tops, xt.tx = t ∧ xu.tx = u ∧
+        classOf xu.urls ≤ classOf xt.urls) := by
+  have hc : ∀ s n urls c id, TxOp.insert s n urls c id ∈ tops → minInt64 ≤ c ∧ c < maxInt64 - 3 := by
+    intro s n urls c id hin
+    rw [happ s n urls c id hin]
+    decide
+  have h64c : Int64Ctx tops := by
+    intro s n urls c id hin
+    rw [happ s n urls c id hin]
+    decide
+  have h64 := int64Prios_of_ctx h64c
+  have hmin : NoMin (pending (tops.map TxOp.toOp)) := by
+    apply noMin_of_ctx h64c
+    intro s n urls c id hin
+    rw [happ s n urls c id hin]
+    decide
+  obtain ⟨p1, p2, p3, _⟩ := select_perm _ h h64 hmin
+  refine ⟨?_, p1, ?_, p3, fun s => select_sender_sorted _ h h64 s, ?_⟩
+  · rw [(index_consistent _ h).2.2.2.2.2, ← tpending_tx, List.length_map]
+  · rw [tpending_tx]; exact p2
+  · intro pre mid post t u hout hne hnext
+    obtain ⟨xt, hxt, xu, hxu, et, eu, _, _, hle, _⟩ :=
+      class_order_tx tops h hc pre mid post t u hout hne hnext
+    exact ⟨xt, hxt, xu, hxu, et, eu, hle⟩
+
+/-! ### clauses that are FALSE for `app/mempool` in isolation (behaviour of /repo, reproduced on
+the real `PriorityNonceMempool` by the fixed histories of `TestC19`) -/
+
+/- Full-strength statement of "yields every pending transaction", as the property text has it
+   (no condition on priorities):
+     ∀ ops, Admissible ops → Int64Prios ops →
+       (run ops).select.2.2 = false ∧ (run ops).select.2.1.Perm (pending ops)
+   It is false; `select_perm` (with `NoMin`) is the best true statement, `select_safe` holds
+   without it. -/
+
+/-- **select_complete_false_at_minvalue.** The clause "yields every pending transaction" fails
+when a pending priority equals `TxPriority.MinValue` (`math.MinInt64`): `Next` dereferences
+`priorityNode.Next()` on the last element.  First witness: a single transaction.  Second
+witness: the panic also loses `c:1`, an ordinary transaction (priority 9) queued behind the
+`MinValue` one.  Both histories are admissible, all priorities are `int64` values. -/
+theorem select_complete_false_at_minvalue :
+    (Admissible [.insert "a" 0 minInt64 1] ∧ Int64Prios [.insert "a" 0 minInt64 1] ∧
+      (run [.insert "a" 0 minInt64 1]).select.2 = ([], true) ∧
+      pending [.insert "a" 0 minInt64 1] = [⟨"a", 0, minInt64, 1⟩]) ∧
+    (Admissible [.insert "c" 0 minInt64 1, .insert "c" 1 9 2, .insert "a" 0 5 3] ∧
+      Int64Prios [.insert "c" 0 minInt64 1, .insert "c" 1 9 2, .insert "a" 0 5 3] ∧
+      (run [.insert "c" 0 minInt64 1, .insert "c" 1 9 2, .insert "a" 0 5 3]).select.2
+        = ([⟨"a", 0, 5, 3⟩], true) ∧
+      (⟨"c", 1, 9, 2⟩ : Tx) ∈ pending [.insert "c" 0 minInt64 1, .insert "c" 1 9 2, .insert "a" 0 5 3]) ∧
+    ¬ (∀ ops, Admissible ops → Int64Prios ops →
+        (run ops).select.2.2 = false ∧ (run ops).select.2.1.Perm (pending ops)) := by
+  refine ⟨⟨?_, ?_, by decide, by decide⟩, ⟨?_, ?_, by decide, by decide⟩, ?_⟩
+  · simp [Admissible, AdmFrom, OpOk]
+  · intro s n p id hm
+    simp only [List.mem_singleton, Op.insert.injEq] at hm
+    obtain ⟨_, _, rfl, _⟩ := hm
+    decide
+  · simp [Admissible, AdmFrom, OpOk, pendingStep]
+  · intro s n p id hm
+    simp only [List.mem_cons, Op.insert.injEq, List.not_mem_nil, or_false] at hm
+    rcases hm with ⟨_, _, rfl, _⟩ | ⟨_, _, rfl, _⟩ | ⟨_, _, rfl, _⟩ <;> decide
+  · intro hall
+    have := hall [.insert "a" 0 minInt64 1] (by simp [Admissible, AdmFrom, OpOk])
+      (by
+        intro s n p id hm
+        simp only [List.mem_singleton, Op.insert.injEq] at hm
+        obtain ⟨_, _, rfl, _⟩ := hm
+        decide)
+    exact absurd this.1 (by decide)
+
+/-- **minvalue_priority_panics** (kept from the first version). -/
+theorem minvalue_priority_panics :
+    (run [.insert "a" 0 minInt64 1]).select.2 = ([], true) := by decide
+
+/- Full-strength statement of "rank … above all others" (no bound on the CheckTx priority):
+     ∀ us uo ps po, hasPrefix us "/palomachain.paloma.scheduler." → classRank uo = none →
+       txPriority [us] ps > txPriority [uo] po
+   It is false; `classes` / `class_rank` (with `po < MaxInt64 - 3`) are the best true statements. -/
+
+/-- **classes_false_at_bound.** `GetTxPriority` returns `ctx.Priority()` unchanged for "all other"
+transactions, so a bank send whose CheckTx priority is `MaxInt64 - 3` ties with a validator-set
+transaction, and one with `MaxInt64` ties with the consensus class and outranks scheduler, bridge
+and validator-set transactions: with the history below, `Select` proposes the bank send `a:0`
+before the scheduler transaction `b:0`.  (`ctx.Priority()` can reach `MaxInt64` with the SDK's
+default fee checker, `getTxPriority` caps at `MaxInt64`; Paloma's `TxFeeSkipper` always returns
+42, so the application is not affected: `mempool_app`.) -/
+theorem classes_false_at_bound :
+    txPriority ["/cosmos.bank.v1beta1.MsgSend"] (maxInt64 - 3)
+      = txPriority ["/palomachain.paloma.valset.MsgKeepAlive"] 0 ∧
+    txPriority ["/cosmos.bank.v1beta1.MsgSend"] maxInt64
+      > txPriority ["/palomachain.paloma.scheduler.MsgCreateJob"] 0 ∧
+    classOf ["/cosmos.bank.v1beta1.MsgSend"] = 0 ∧
+    classOf ["/palomachain.paloma.scheduler.MsgCreateJob"] = 3 ∧
+    Admissible ([TxOp.insert "a" 0 ["/cosmos.bank.v1beta1.MsgSend"] maxInt64 1,
+      TxOp.insert "b" 0 ["/palomachain.paloma.scheduler.MsgCreateJob"] 0 2].map TxOp.toOp) ∧
+    (run ([TxOp.insert "a" 0 ["/cosmos.bank.v1beta1.MsgSend"] maxInt64 1,
+      TxOp.insert "b" 0 ["/palomachain.paloma.scheduler.MsgCreateJob"] 0 2].map TxOp.toOp)).select.2
+      = ([⟨"a", 0, maxInt64, 1⟩, ⟨"b", 0, maxInt64 - 1, 2⟩], false) ∧
+    ¬ (∀ (us uo : String) (ps po : Int), hasPrefix us "/palomachain.paloma.scheduler." = true →
+        classRank uo = none → txPriority [us] ps > txPriority [uo] po) := by
+  refine ⟨by decide, by decide, by decide, by decide, ?_, by decide, ?_⟩
+  · simp [Admissible, AdmFrom, OpOk, pendingStep, TxOp.toOp]
+  · intro hall
+    have := hall "/palomachain.paloma.scheduler.MsgCreateJob" "/cosmos.bank.v1beta1.MsgSend" 0 maxInt64
+      (by decide) (by decide)
+    exact absurd this (by decide)
+
 /-- **replacement_changes_priority_loses_tx** (outside the precondition; behaviour of the code
 as it is).  Re-inserting a pending (sender, nonce) with a *different* priority leaves the old
 priority in the key of the sender-index element (`skiplist.Set` only replaces the value), and
@@ -1270,12 +2105,7 @@ theorem replacement_changes_priority_loses_tx :
   refine ⟨by decide, by decide, by decide, ?_⟩
   simp [Admissible, AdmFrom, OpOk, pendingStep]
 
-/-- **minvalue_priority_panics** (outside the precondition).  A transaction whose priority is
-the `MinValue` sentinel makes `Next` dereference `priorityNode.Next()` on the last element. -/
-theorem minvalue_priority_panics :
-    (run [.insert "a" 0 minInt64 1]).select.2 = ([], true) := by decide
-
-/-! ### non-vacuity -/
+/-! ### non-vacuity (every example goes through `run` from the empty pool) -/
 
 /-- a history with three senders, priority ties across senders, a remove and an intermediate
     select: it is admissible, and the final select yields all five pending transactions -/
@@ -1284,7 +2114,9 @@ def exampleHistory : List Op :=
    .remove "b" 0, .insert "b" 1 5 5, .insert "c" 1 5 6, .select]
 
 example : Admissible exampleHistory := by
-  simp [exampleHistory, Admissible, AdmFrom, OpOk, pendingStep, minInt64]
+  simp [exampleHistory, Admissible, AdmFrom, OpOk, pendingStep]
+
+example : NoMin (pending exampleHistory) := by unfold NoMin; decide
 
 example : (run exampleHistory).select.2 =
     ([⟨"c", 0, 7, 4⟩, ⟨"a", 0, 5, 1⟩, ⟨"a", 1, 9, 3⟩, ⟨"c", 1, 5, 6⟩, ⟨"b", 1, 5, 5⟩], false) := by
@@ -1294,6 +2126,26 @@ example : pending exampleHistory =
     [⟨"c", 1, 5, 6⟩, ⟨"b", 1, 5, 5⟩, ⟨"c", 0, 7, 4⟩, ⟨"a", 1, 9, 3⟩, ⟨"a", 0, 5, 1⟩] ∧
     (run exampleHistory).count = 5 := by decide
 
+/-- the in-history select of `exampleHistory` (4th operation): `select_in_history` applies with
+    `pre` = the first three operations, and that select yields the three transactions pending
+    at that point -/
+example : exampleHistory =
+      [.insert "a" 0 5 1, .insert "b" 0 5 2, .insert "a" 1 9 3] ++ .select ::
+        [.insert "c" 0 7 4, .remove "b" 0, .insert "b" 1 5 5, .insert "c" 1 5 6, .select] ∧
+    (run [.insert "a" 0 5 1, .insert "b" 0 5 2, .insert "a" 1 9 3]).select.2
+      = ([⟨"a", 0, 5, 1⟩, ⟨"a", 1, 9, 3⟩, ⟨"b", 0, 5, 2⟩], false) := ⟨rfl, by decide⟩
+
+/-- the removed `b:0` (id 2) is not pending at the end and not yielded, although it was yielded
+    by the earlier select (`removed_not_pending` with `pre` = first five operations) -/
+example : (⟨"b", 0, 5, 2⟩ : Tx) ∉ pending exampleHistory ∧
+    (⟨"b", 0, 5, 2⟩ : Tx) ∉ (run exampleHistory).select.2.1 := by decide
+
+/-- `Remove` of something that is not pending is refused and changes nothing (count stays 5) -/
+example : ((run exampleHistory).remove "b" 0).2 = false ∧
+    ((run exampleHistory).remove "b" 0).1.count = 5 ∧
+    ((run exampleHistory).remove "b" 1).2 = true ∧
+    ((run exampleHistory).remove "b" 1).1.count = 4 := by decide
+
 /-- the more general form of the precondition is satisfiable too: `a:0` is re-inserted with an
     unchanged priority (new id 3) after a select; the new transaction is the one yielded -/
 example :
@@ -1301,7 +2153,7 @@ example :
     (run [.insert "a" 0 5 1, .insert "b" 0 5 2, .insert "a" 1 7 4, .select, .insert "a" 0 5 3]).select.2
       = ([⟨"a", 0, 5, 3⟩, ⟨"a", 1, 7, 4⟩, ⟨"b", 0, 5, 2⟩], false) := by
   refine ⟨?_, by decide⟩
-  simp [Admissible, AdmFrom, OpOk, pendingStep, minInt64]
+  simp [Admissible, AdmFrom, OpOk, pendingStep]
 
 /-- the hypotheses of `class_order` are satisfiable: `t = c:0` (priority 7) is yielded while
     `u = b:1` (priority 5) is the next transaction of `b` -/
@@ -1309,6 +2161,57 @@ example : (run exampleHistory).select.2.1 =
     [] ++ (⟨"c", 0, 7, 4⟩ : Tx) :: ([⟨"a", 0, 5, 1⟩, ⟨"a", 1, 9, 3⟩, ⟨"c", 1, 5, 6⟩] ++ ⟨"b", 1, 5, 5⟩ :: []) ∧
     ("c" : String) ≠ "b" ∧
     ∀ v ∈ ([⟨"a", 0, 5, 1⟩, ⟨"a", 1, 9, 3⟩, ⟨"c", 1, 5, 6⟩] : List Tx), v.sender ≠ "b" := by decide
+
+/-- taking 2 of the 5 transactions leaves the iterator alive (standing on the third), taking 9
+    exhausts it;
+    the pool afterwards is the one the exhaustive select leaves -/
+example :
+    ((run exampleHistory).selectN 2).2.1 = [⟨"c", 0, 7, 4⟩, ⟨"a", 0, 5, 1⟩] ∧
+    ((run exampleHistory).selectN 2).2.2.cur? = some ⟨"a", 1, 9, 3⟩ ∧
+    ((run exampleHistory).selectN 9).2.1.length = 5 ∧
+    ((run exampleHistory).selectN 9).2.2.isDone = true ∧
+    ((run exampleHistory).selectN 2).1.pidx = (run exampleHistory).select.1.pidx := by decide
+
+/-- a stopped sender: `c:0` carries the `MinValue` priority, the iterator defers `c` at the first
+    element, and panics at the last one after yielding `a:0` only; `selectN 0` (Select alone) does not
+    see the panic, `selectN 1` (one `Next()`) does -/
+example :
+    ((run [.insert "c" 0 minInt64 1, .insert "c" 1 9 2, .insert "a" 0 5 3]).selectN 1).2.2.isPanic = true ∧
+    ((run [.insert "c" 0 minInt64 1, .insert "c" 1 9 2, .insert "a" 0 5 3]).selectN 1).2.1
+      = [⟨"a", 0, 5, 3⟩] ∧
+    ((run [.insert "c" 0 minInt64 1, .insert "c" 1 9 2, .insert "a" 0 5 3]).selectN 0).2.2.cur?
+      = some ⟨"a", 0, 5, 3⟩ := by decide
+
+/-- a `MinValue` priority does not always panic: behind a same-sender predecessor it is yielded
+    (`select_safe` is the statement that covers both outcomes) -/
+example : (run [.insert "a" 0 5 1, .insert "a" 1 minInt64 2]).select.2
+    = ([⟨"a", 0, 5, 1⟩, ⟨"a", 1, minInt64, 2⟩], false) := by decide
+
+/-- a `TxOp` history as the application produces it (every CheckTx priority is 42): a bank send,
+    a keep-alive, an evidence message and a job, two senders with two nonces; `mempool_app`
+    applies and the classes come out in order -/
+def appHistory : List TxOp :=
+  [.insert "a" 0 ["/cosmos.bank.v1beta1.MsgSend"] appCtxPriority 1,
+   .insert "b" 0 ["/palomachain.paloma.valset.MsgKeepAlive"] appCtxPriority 2,
+   .insert "a" 1 ["/palomachain.paloma.consensus.MsgAddEvidence"] appCtxPriority 3,
+   .select,
+   .insert "c" 0 ["/palomachain.paloma.scheduler.MsgCreateJob"] appCtxPriority 4,
+   .insert "b" 1 ["/palomachain.paloma.evm.MsgA", "/palomachain.paloma.evm.MsgB"] appCtxPriority 5,
+   .remove "a" 0]
+
+example : Admissible (appHistory.map TxOp.toOp) := by
+  simp [appHistory, Admissible, AdmFrom, OpOk, pendingStep, TxOp.toOp]
+
+example : ∀ s n urls c id, TxOp.insert s n urls c id ∈ appHistory → c = appCtxPriority := by
+  intro s n urls c id h
+  simp only [appHistory, List.mem_cons, TxOp.insert.injEq, List.not_mem_nil, or_false, reduceCtorEq,
+    false_or] at h
+  rcases h with h | h | h | h | h <;> exact h.2.2.2.1
+
+example : (run (appHistory.map TxOp.toOp)).select.2 =
+    ([⟨"a", 1, maxInt64, 3⟩, ⟨"c", 0, maxInt64 - 1, 4⟩, ⟨"b", 0, maxInt64 - 3, 2⟩, ⟨"b", 1, 42, 5⟩], false) ∧
+    (tpending appHistory).map (fun x => (x.tx.sender, x.tx.nonce, classOf x.urls)) =
+      [("b", 1, 0), ("c", 0, 3), ("a", 1, 4), ("b", 0, 1)] := by decide
 
 /-- the hypotheses of `classes` are satisfiable by real type URLs -/
 example :
